@@ -7,7 +7,7 @@ RULE = 'checksummed streams (32/64 bit, 1..5 blocks, short raw final blocks ever
 
 def check(run):
     from props import _stream
-    _stream.check(run, PID, CMD, RULE, extra_cmds=('rdm',))
+    _stream.check(run, PID, CMD, RULE, extra_cmds=('rdm', 'xxm'))
 
 def replay(path):
     import json
